@@ -380,6 +380,23 @@ func runCheck(id, tier string, seed int, overlay map[string][]byte, writeEvidenc
 				assumedContracts = append(assumedContracts, k+" (interface-method contract)")
 			}
 		}
+		// preconditions: checked at every call site that is under contract; for a function that no verified function of
+		// this check calls they are assumptions about the callers outside the cone (representation invariants, input sanity)
+		var entryPre []string
+		for _, f := range prop.Funcs {
+			key := resolveFuncArgQuiet(w, f)
+			fc := w.Contract[key]
+			if fc == nil {
+				continue
+			}
+			how := "assumed at entry (no function verified in this check calls it)"
+			if e.contractCalls[key] {
+				how = "checked at its call sites in this check"
+			}
+			for _, rq := range fc.Requires {
+				entryPre = append(entryPre, shortKey(key)+"#"+rq.Label+": "+rq.Src+" — "+how)
+			}
+		}
 		var bnd []any
 		for _, b := range bounded {
 			bnd = append(bnd, map[string]any{"name": b.Name, "bound": b.Bound, "cases": b.Cases, "violations": len(b.Violations), "label": "bounded (never counted as proved)", "wall_s": b.WallS})
@@ -413,6 +430,7 @@ func runCheck(id, tier string, seed int, overlay map[string][]byte, writeEvidenc
 			"externs_assumed":           externList,
 			"assumed_contracts":         assumedContracts,
 			"trusted_clauses":           sortedKeys(e.trusted),
+			"preconditions":             entryPre,
 			"axioms":                    e.axiomsUsed,
 			"noise_calls":               sortedKeys(e.noiseCalls),
 			"havocked_calls":            sortedKeys(e.havocked),
